@@ -245,7 +245,7 @@ func runPropertyEnum[C any](t *testing.T, prop string, enum []C, gen func(*rapid
 			fmt.Sscan(n, &k)
 			for i := 0; i < k; i++ {
 				o2 := run(c)
-				fmt.Printf("REPEAT %d sig=%q digest=%s\n", i, o2.Sig, o2.Digest)
+				fmt.Printf("REPEAT %d sig=%q digest=%s behaviour=%s\n", i, o2.Sig, o2.Digest, o2.Behaviour)
 			}
 		}
 		if o.Violation != "" {
